@@ -1,0 +1,51 @@
+//! Verification hooks (compiled only with `--cfg blue_verif`).  Add-only.
+
+use super::{KeyValueStore, LsmTree};
+
+/// A copy of the scalar part of the store state.
+#[derive(Clone, Debug)]
+pub struct VerifState {
+    pub seq_no: u64,
+    pub mem_seq_no: u64,
+    pub imm_trigger: u64,
+    pub has_imm: bool,
+    pub mem_size: usize,
+}
+
+impl KeyValueStore {
+    pub fn verif_tree(&self) -> &LsmTree {
+        &self.tree
+    }
+
+    pub fn verif_state(&self) -> VerifState {
+        let state = self.state.lock().unwrap();
+        VerifState {
+            seq_no: state.seq_no,
+            mem_seq_no: state.mem_seq_no,
+            imm_trigger: state.imm_trigger,
+            has_imm: state.imm.is_some(),
+            mem_size: state.mem.approximate_size(),
+        }
+    }
+
+    /// Ask the memtable thread for a rollover exactly as a full memtable does in `write`.
+    /// Returns the sequence number the flush will record (`mem_seq_no` at the time of the call).
+    pub fn verif_request_flush(&self) -> u64 {
+        let state = self.state.lock().unwrap();
+        let target = state.mem_seq_no;
+        let _state = self.rollover_memtable(state);
+        target
+    }
+
+    /// Wait until the flush requested with `verif_request_flush` has been ingested.
+    pub fn verif_wait_flush(&self, target: u64) {
+        let mut state = self.state.lock().unwrap();
+        while state.imm_trigger < target || state.imm.is_some() || state.mem_seq_no <= target {
+            let (guard, _) = self
+                .cnd_memtable_rolled_over
+                .wait_timeout(state, std::time::Duration::from_millis(50))
+                .unwrap();
+            state = guard;
+        }
+    }
+}
